@@ -462,6 +462,16 @@ def r18_vec_set(body, log):
     return body
 
 
+def r18c_index_compound(body, log):
+    """R18c: `v[i] OP= x;` -> `v.set(i, v[i] OP (x));` (the index expression is pure: path / arithmetic only)."""
+    pat = re.compile(r'(?m)^([ \t]*)(' + PATH + r')\[([\w\s+\-*/%()]+)\] (\||&|\^|\+|-)= ([^;\n]+);')
+    n = len(pat.findall(body))
+    if n:
+        body = pat.sub(r'\1\2.set(\3, \2[\3] \4 (\5));', body)
+        log.append(f"R18c `v[i] op= x;` -> `v.set(i, v[i] op (x));` ({n}x)")
+    return body
+
+
 # --------------------------------------------------------------------------- loops
 
 LOOP_KW = re.compile(r"(?:'\w+\s*:\s*)?\b(for|while|loop)\b")
@@ -671,6 +681,8 @@ def extract_fn(repo, fnspec):
         body = r3i_inclusive_range(body, log)
     if 'R18' in rules:
         body = r18_vec_set(body, log)
+    if 'R18c' in rules:
+        body = r18c_index_compound(body, log)
     for d in fnspec.get('directives', []):
         k = d['kind']
         if k == 'opaque':
@@ -743,6 +755,10 @@ def extract_fn(repo, fnspec):
         # termination of this function is NOT claimed (stated in the evidence through the allow-list scan)
         parts = ['#[verifier::exec_allows_no_decreases_clause]', sig2]
         log.append("termination not proved: #[verifier::exec_allows_no_decreases_clause]")
+    if fnspec.get('loop_isolation') == 'false':
+        # proof engineering only (sound): loops see the facts about immutable locals established before them
+        parts.insert(0, '#[verifier::loop_isolation(false)]')
+        log.append("#[verifier::loop_isolation(false)]: loop bodies keep the enclosing context's facts")
     for kind in ('requires', 'ensures'):
         cl = fnspec.get(kind, [])
         if cl:
